@@ -24,7 +24,17 @@ tail -5 /tmp/seeded_out/$N/with.log
 echo "exit with change: $C"
 rm -f $DEMO_PATH; rmdir "$(dirname $DEMO_PATH)" 2>/dev/null
 echo "--- suite WITH change"
-timeout 900 go build ./... && timeout 900 go test -vet=off -count=1 ./... 2>&1 | grep -v "no test files" | grep -v "^ok" ; S=${PIPESTATUS[0]}
+timeout 900 go build ./... && timeout 900 go test -vet=off -count=1 ./... > /tmp/seeded_out/$N/suite.log 2>&1; S=$?
+grep -v "no test files" /tmp/seeded_out/$N/suite.log | grep -v "^ok"
+# two of the pinned tests are load-sensitive (they fail on the unchanged tree under load): re-run failing packages
+for try in 1 2 3; do
+  [ $S -eq 0 ] && break
+  PK=$(grep -E "^FAIL\s+github.com" /tmp/seeded_out/$N/suite.log | awk '{print $2}' | sed 's#github.com/hashicorp/raft-wal#.#')
+  [ -z "$PK" ] && break
+  echo "--- re-running failed packages (try $try): $PK"
+  timeout 900 go test -vet=off -count=1 $PK > /tmp/seeded_out/$N/suite.log 2>&1; S=$?
+  grep -v "^ok" /tmp/seeded_out/$N/suite.log | tail -5
+done
 echo "suite exit: $S"
 cd /; git -C /repo worktree remove --force $WT
 echo "RESULT $N: without=$W with=$C suite=$S"
